@@ -172,12 +172,14 @@ fn check_interp<A: Attr>(t: [(f32, f32); 3], zi: usize, r: &mut Report, fam: &st
         let l = [1.0 - l1 - l2, l1, l2];
         let zp: f64 = (0..3).map(|k| l[k] * zf[k]).sum();
         if sliver { continue; }
+        r.margin("depth(0.5% stated)", (pos[2] as f64 - zp).abs(), ztol);
         if (pos[2] as f64 - zp).abs() > ztol { r.violation(key("depth"), format!("pixel ({x},{y}): depth {} but the plane through the vertex depths gives {zp} (tol {ztol:.2e})", pos[2]), case()); return; }
         for ci in 0..A::N {
             let vp: f64 = (0..3).map(|k| l[k] * vf[k][ci]).sum();
             let want = vp / zp;
             let (lo, hi) = (ratio.iter().map(|q| q[ci]).fold(f64::MAX, f64::min), ratio.iter().map(|q| q[ci]).fold(f64::MIN, f64::max));
             let tol = 0.005 * (hi - lo) + 1e-5 * hi.abs().max(lo.abs());
+r.margin("attr(0.5% stated)", (var[ci] - want).abs(), tol);
             if (var[ci] - want).abs() > tol {
                 let persp = (var[ci] - vp).abs() <= tol && (zmax - zmin) > 0.0;
                 r.violation(format!("{}|{fam}|{}|{t:?}|z={zs:?}", if persp { "attr-not-perspective-divided" } else { "attr" }, A::NAME), format!("pixel ({x},{y}) component {ci}: var {} expected {want} = plane {vp} / depth {zp} (tol {tol:.2e})", var[ci]), case());
